@@ -312,6 +312,7 @@ def run(ctx: common.Run):
         ctx.report_unproved('lean-build', f'{failing}', {'theorem_or_correspondence': failing})
         return
     check_rules(ctx, cirq)
+    check_gauges(ctx, cirq)
     n = 40 if ctx.tier == 'quick' else 600
     rng = ctx.substream('circuits')
     so = structure_only(cirq)
@@ -473,6 +474,119 @@ def run(ctx: common.Run):
                 subs_out = [o.untagged for o in out.all_operations() if isinstance(o.untagged, cirq.CircuitOperation)]
                 if any(s not in subs_in for s in subs_out):
                     ctx.report_witness(f'not-deep:{name.split("(")[0]}', 'a sub-circuit was rewritten although deep transformation was not requested', dict(rep, impl_out=[repr(out)[:2500]], spec_out=[repr(subs_in)[:800]]))
+
+
+def check_gauges(ctx, cirq):
+    """gauge-compiling transformers (randomised: every draw must preserve the unitary; `as_sweep`: every parameter set of the
+    symbolised circuit must), the insertion sort, tag transformers and the lightcone filter"""
+    import cirq_google
+    from cirq.transformers import gauge_compiling as gc
+
+    rng = ctx.substream('gauges')
+    n = 10 if ctx.tier == 'quick' else 120
+    gauges = {
+        'CZGaugeTransformer': (gc.CZGaugeTransformer, [cirq.CZ]),
+        'ISWAPGaugeTransformer': (gc.ISWAPGaugeTransformer, [cirq.ISWAP]),
+        'SqrtCZGaugeTransformer': (gc.SqrtCZGaugeTransformer, [cirq.CZ ** 0.5]),
+        'SqrtISWAPGaugeTransformer': (gc.SqrtISWAPGaugeTransformer, [cirq.SQRT_ISWAP]),
+        'CPhaseGaugeTransformer': (gc.CPhaseGaugeTransformer, [cirq.CZ, cirq.CZ ** 0.3, cirq.CZ ** -0.7, cirq.CZ ** 1.5]),
+        'SpinInversionGaugeTransformer': (gc.SpinInversionGaugeTransformer, [cirq.ZZ ** 0.3, cirq.ZZ, cirq.CZ, cirq.ZZ ** -0.5]),
+        'SYCGaugeTransformer': (cirq_google.transformers.sycamore_gauge.SYCGaugeTransformer if hasattr(cirq_google.transformers, 'sycamore_gauge') else None, [cirq_google.SYC]),
+    }
+    for i in range(n):
+        name = rng.choice(list(gauges))
+        tr, targets = gauges[name]
+        if tr is None:
+            continue
+        nq = rng.randint(2, 4)
+        qs = cirq.LineQubit.range(nq) if name != 'SYCGaugeTransformer' else [cirq.GridQubit(0, j) for j in range(nq)]
+        moments = []
+        for _ in range(rng.randint(1, 5)):
+            free = list(qs)
+            rng.shuffle(free)
+            ops = []
+            while len(free) >= 2 and rng.random() < 0.7:
+                a, b = free.pop(), free.pop()
+                ops.append(rng.choice(targets + [cirq.CNOT] if rng.random() < 0.85 else [cirq.ISWAP ** 0.3])(a, b))
+            for q in free:
+                if rng.random() < 0.5:
+                    op = gen.one_qubit_gate(cirq, rng).on(q)
+                    ops.append(op.with_tags(IGN) if rng.random() < 0.15 else op)
+            moments.append(cirq.Moment(ops))
+        circuit = cirq.Circuit(moments)
+        if rng.random() < 0.3 and len(circuit):
+            k = rng.randrange(len(circuit))
+            circuit = cirq.Circuit(circuit[:k], cirq.Moment(), circuit[k:])
+        want = lean_unitary(ctx, cirq, circuit, list(qs))
+        before = circuit.copy()
+        rep = {'lines': [{'transformer': name, 'circuit': repr(circuit)}], 'theorem_or_correspondence': 'Lean reference semantics (C01)'}
+        for draw in range(3):
+            try:
+                out = tr(circuit, prng=np.random.default_rng(rng.randrange(2**31)))
+            except (ValueError, TypeError, NotImplementedError) as e:
+                ctx.count('transformer_error', f'{name}:{type(e).__name__}:{str(e)[:30]}')
+                break
+            ctx.count('check', 'gauge:' + name)
+            ctx.case(['gauge', name, draw, repr(circuit)], True)
+            got = lean_unitary(ctx, cirq, out, list(qs))
+            if got.shape != want.shape or not phase_close(got, want, 1e-6):
+                ctx.report_witness(f'gauge:{name}', 'a gauge-compiled circuit has a different unitary (up to global phase)', dict(rep, impl_out=[repr(out)[:2500]], spec_out=['same unitary']))
+                break
+        if circuit != before:
+            ctx.report_witness(f'mutated-input:{name}', 'the transformer modified its argument', dict(rep, impl_out=[repr(circuit)[:1500]], spec_out=[repr(before)[:1500]]))
+        # the sweep form: every parameter set of the symbolised circuit is a gauge of the input
+        if hasattr(tr, 'as_sweep') and i % 2 == 0:
+            try:
+                pc, sweep = tr.as_sweep(circuit, N=3, prng=np.random.default_rng(rng.randrange(2**31)))
+            except (ValueError, TypeError, NotImplementedError) as e:
+                ctx.count('transformer_error', f'{name}.as_sweep:{type(e).__name__}:{str(e)[:30]}')
+                continue
+            for params in sweep:
+                rc = cirq.resolve_parameters(pc, params)
+                ctx.count('check', 'gauge-sweep:' + name)
+                got = lean_unitary(ctx, cirq, rc, list(qs))
+                if got.shape != want.shape or not phase_close(got, want, 1e-6):
+                    ctx.report_witness(f'gauge-sweep:{name}', 'a parameter set of the gauge sweep gives a circuit with a different unitary (up to global phase)',
+                                       dict(rep, impl_out=[repr(pc)[:1800], repr(params)[:600]], spec_out=['same unitary']))
+                    break
+    # insertion sort, tag transformers, lightcone filter
+    for i in range(n * 2):
+        measured = rng.random() < 0.4
+        circuit, qs = random_circuit(cirq, rng, measured=measured)
+        rep = {'lines': [{'circuit': repr(circuit)}], 'theorem_or_correspondence': 'Lean reference semantics (C01 / C02)'}
+        is_unitary = not any(cirq.is_measurement(o) or isinstance(o.untagged, cirq.ClassicallyControlledOperation) for o in flat_ops(cirq, circuit))
+        outs = {}
+        try:
+            outs['insertion_sort_transformer'] = cirq.transformers.insertion_sort_transformer(circuit)
+        except (ValueError, TypeError, NotImplementedError) as e:
+            ctx.count('transformer_error', f'insertion_sort:{type(e).__name__}')
+        tagged = cirq.Circuit(op.with_tags('s') if rng.random() < 0.5 else op for op in circuit.all_operations())
+        outs['index_tags'] = cirq.index_tags(tagged, target_tags={'s'})
+        outs['remove_tags'] = cirq.remove_tags(tagged, target_tags={'s'})
+        outs['toggle_tags'] = cirq.toggle_tags(tagged, ['s'])
+        if not is_unitary:
+            outs['lightcone_filter'] = cirq.transformers.lightcone_filter(circuit)
+        for name, out in outs.items():
+            ctx.count('check', 'misc:' + name)
+            ctx.case(['misc', name, repr(circuit)], len(list(circuit.all_operations())) >= 2)
+            all_qs = sorted(set(qs) | out.all_qubits())
+            if name in ('index_tags', 'remove_tags', 'toggle_tags'):
+                # tags only: the untagged operations are the same, moment by moment
+                if [[o.untagged for o in m] for m in out] != [[o.untagged for o in m] for m in tagged]:
+                    ctx.report_witness(f'misc:{name}', 'a tag transformer changed more than tags', dict(rep, impl_out=[repr(out)[:2000]], spec_out=['same operations']))
+                continue
+            if is_unitary:
+                want, got = lean_unitary(ctx, cirq, circuit, list(all_qs)), lean_unitary(ctx, cirq, out, list(all_qs))
+                if not phase_close(got, want, 1e-6):
+                    ctx.report_witness(f'misc:{name}', 'the transformed circuit has a different unitary (up to global phase)', dict(rep, impl_out=[repr(out)[:2000]], spec_out=['same unitary']))
+            else:
+                try:
+                    want_d, got_d = lean_distribution(ctx, cirq, circuit, all_qs), lean_distribution(ctx, cirq, out, all_qs)
+                except common.InfraError:
+                    continue
+                if not dist_close(got_d, want_d):
+                    ctx.report_witness(f'misc:{name}:measured', 'the transformed circuit has a different joint distribution of measurement records',
+                                       dict(rep, impl_out=[repr(out)[:2000], sorted((repr(k), round(v, 8)) for k, v in got_d.items())[:10]], spec_out=[sorted((repr(k), round(v, 8)) for k, v in want_d.items())[:10]]))
 
 
 def check_rules(ctx, cirq):
